@@ -84,11 +84,46 @@ def write_overlay(extra=None):
     return path
 
 
+def apply_rewrites():
+    """Source rewrites requested by lib/props/*.json ("rewrites": [{"file": rel, "subs": [[old, new],..],
+    "min_hits": n}]): a copy of the CURRENT /repo file with plain-text substitutions (clock / PRNG
+    injection points) is written under build/overlay_src and mounted by -overlay. Returns
+    (extra overlay entries, list of problems)."""
+    extra, problems = {}, []
+    byfile = {}
+    for pid, cfg in sorted(PROPS.items()):
+        for rw in cfg.get("rewrites", []):
+            byfile.setdefault(rw["file"], []).append((pid, rw))
+    for rel, rws in sorted(byfile.items()):
+        src = os.path.join(REPO, rel)
+        try:
+            txt = open(src).read()
+        except OSError as e:
+            problems.append("rewrite %s: %s" % (rel, e))
+            continue
+        for pid, rw in rws:
+            hits = 0
+            for old, new in rw["subs"]:
+                hits += txt.count(old)
+                txt = txt.replace(old, new)
+            if hits < rw.get("min_hits", 1):
+                problems.append("rewrite for %s no longer applies to %s (%d hits)" % (pid, rel, hits))
+        dst = os.path.join(BUILD, "overlay_src", rel)
+        os.makedirs(os.path.dirname(dst), exist_ok=True)
+        if not os.path.exists(dst) or open(dst).read() != txt:
+            open(dst, "w").write(txt)
+        extra[src] = dst
+    return extra, problems
+
+
 def build_harness():
     """go build of xmth against the current /repo tree. Returns (ok, output)."""
     with Lock("go"):
         shutil.copyfile(os.path.join(REPO, "go.sum"), os.path.join(GO, "go.sum"))
-        ov = write_overlay()
+        extra, problems = apply_rewrites()
+        if problems:
+            return False, "\n".join(problems)
+        ov = write_overlay(extra)
         gomod = open(os.path.join(GO, "go.mod")).read()
         want = "replace github.com/iDigitalFlame/xmt => %s" % REPO
         if want not in gomod:
@@ -197,7 +232,11 @@ def load_known():
     p = os.path.join(VERIF, "known_findings.json")
     if not os.path.exists(p):
         return []
-    return json.load(open(p)).get("findings", [])
+    res = json.load(open(p)).get("findings", [])
+    import glob
+    for f in sorted(glob.glob(os.path.join(VERIF, "known", "*.json"))):
+        res += json.load(open(f)).get("findings", [])
+    return res
 
 
 def match_known(known, pid, key):
